@@ -3,6 +3,7 @@
 #define HANDLER_MONITORS_H
 
 extern _Bool g_answer_mode;
+static inline int role_of(const DPH* h);
 static inline _Bool is_own_addr(const DPH* h, symbol_t a) { return a == h->m_ownMasterAddress || a == h->m_ownSlaveAddress; }
 
 /* expected symbol on the wire for the unescaped symbol v given the escape state (A9 -> A9 00, AA -> A9 01) */
@@ -16,9 +17,10 @@ result_t Device_send(struct Device* d, symbol_t value) {
   g_send_calls = g_send_calls + 1;
   __CPROVER_assert(!h->m_config.readOnly, "[C03] nothing is transmitted in read-only mode");
   __CPROVER_assert(!g_echo_pending, "[C03] the previous symbol was echo-verified before the next one is sent");
-  _Bool autosyn = value == 0xAA && g_silent_timeout && h->m_generateSynInterval > 0 && !g_active_open;
-  _Bool active = g_active_open;
-  _Bool answering = !g_active_open && h->m_currentAnswering && (g_rx.ph == RX_CMDACK || g_rx.ph == RX_RES || g_rx.ph == RX_RESCRC);
+  int role = role_of(h);
+  _Bool autosyn = role == 0 && value == 0xAA && g_silent_timeout && h->m_generateSynInterval > 0;
+  _Bool active = role == 1 && g_active_open;
+  _Bool answering = role == 2 && h->m_currentAnswering && (g_rx.ph == RX_CMDACK || g_rx.ph == RX_RES || g_rx.ph == RX_RESCRC);
   __CPROVER_assert(autosyn || active || answering,
     "[C03] a symbol is sent only as AUTO-SYN after silence, as continuation of a won telegram, or as acknowledge/response while answering");
   if (active) {
@@ -75,51 +77,67 @@ void PH_measureLatency(DPH* self, struct vtimespec* s, struct vtimespec* r) { se
 
 static inline _Bool req_ok(const struct BusRequest* r) {
   return r->master.m_isMaster && r->master.m_data.n >= 5 && r->master.m_data.n == 5 + (size_t)r->master.m_data.d[4] && rx_is_master(r->master.m_data.d[0])
-      && r->master.m_data.d[1] != 0xAA && r->master.m_data.d[1] != 0xA9;
+      && r->master.m_data.d[1] != 0xAA && r->master.m_data.d[1] != 0xA9
+      && r->master.m_data.d[0] != r->master.m_data.d[1];   /* requests are not self-addressed (assumption on the submitters) */
 }
 #define ACTIVE_STATE(s) ((s) == bs_sendCmd || (s) == bs_sendCmdCrc || (s) == bs_recvCmdAck || (s) == bs_recvRes || (s) == bs_recvResCrc || (s) == bs_sendResAck)
 #define ANSWER_STATE(s) ((s) == bs_sendCmdAck || (s) == bs_sendRes || (s) == bs_sendResCrc || (s) == bs_recvResAck)
 #define PASSIVE_STATE(s) ((s) == bs_noSignal || (s) == bs_skip || (s) == bs_ready || (s) == bs_recvCmd || (s) == bs_recvCmdCrc || (s) == bs_recvCmdAck || (s) == bs_recvRes || (s) == bs_recvResCrc || (s) == bs_recvResAck)
 
-/* ---- invariant of the handler state (holds between calls of handleSend / handleReceive) ---- */
-static inline _Bool inv(const DPH* h) {
-  if (!h->m_command.m_isMaster || h->m_response.m_isMaster) return 0;
-  if (h->m_command.m_data.n > 260 || h->m_response.m_data.n > 256) return 0;
-  if ((int)h->m_state < 0 || (int)h->m_state > bs_sendSyn) return 0;
-  if (h->m_device == NULL || h->m_listener == NULL) return 0;
-  if (h->m_escape != 0 && h->m_escape != 0xA9 && h->m_escape != 0xAA) return 0;
-  if ((int)h->m_listenerState < 0 || (int)h->m_listenerState > ps_empty) return 0;
-  if (h->m_lastReceive < 0 || h->m_lastReceive >= (1L << 33)) return 0;
-  if (h->m_lastSynReceiveTime.tv_sec < 0 || h->m_lastSynReceiveTime.tv_sec >= (1L << 33) || h->m_lastSynReceiveTime.tv_nsec < 0 || h->m_lastSynReceiveTime.tv_nsec >= 1000000000L) return 0;
-  if (h->m_currentRequest != NULL) {
-    const struct BusRequest* r = h->m_currentRequest;
-    if (r->life != RL_CURRENT || r->notified != 0 || !req_ok(r)) return 0;
-    if (h->m_device->arbitrating) return 0;
-    if (!ACTIVE_STATE(h->m_state)) return 0;
-    if (h->m_currentAnswering) return 0;
+/* ---- invariant of the handler state; before_send: the variant that holds before handleSend (= after handleReceive), which
+   additionally allows "ready with a current request" (SYN during an own telegram while the lock counter is > 0; cleaned up by handleSend) ---- */
+#define INV_PARTS 7
+static inline _Bool inv_part(const DPH* h, int part, _Bool before_send) {
+  switch (part) {
+  case 0:
+    return h->m_command.m_isMaster && !h->m_response.m_isMaster && h->m_command.m_data.n <= 260 && h->m_response.m_data.n <= 256
+        && (int)h->m_state >= 0 && (int)h->m_state <= bs_sendSyn && h->m_device != NULL && h->m_listener != NULL
+        && (h->m_escape == 0 || h->m_escape == 0xA9 || h->m_escape == 0xAA) && (int)h->m_listenerState >= 0 && (int)h->m_listenerState <= ps_empty;
+  case 1:
+    return h->m_lastReceive >= 0 && h->m_lastReceive < (1L << 33) && h->m_lastSynReceiveTime.tv_sec >= 0 && h->m_lastSynReceiveTime.tv_sec < (1L << 33)
+        && h->m_lastSynReceiveTime.tv_nsec >= 0 && h->m_lastSynReceiveTime.tv_nsec < 1000000000L;
+  case 2:
+    if (h->m_currentRequest == NULL) return 1;
+    return h->m_currentRequest->life == RL_CURRENT && h->m_currentRequest->notified == 0 && req_ok(h->m_currentRequest) && !h->m_device->arbitrating
+        && (ACTIVE_STATE(h->m_state) || (before_send && h->m_state == bs_ready)) && !h->m_currentAnswering;
+  case 3:
+    if (h->m_device->arbitrating && !rx_is_master(h->m_device->arb_master)) return 0;
+    if (g_q_head == NULL) return 1;
+    return g_q_head->life == RL_QUEUED && g_q_head != h->m_currentRequest && req_ok(g_q_head);
+  case 4:
+    return !(h->m_config.readOnly && (g_q_head != NULL || h->m_currentRequest != NULL || h->m_state == bs_sendSyn));   /* addRequest refuses requests in read-only mode */
+  case 5:
+    if (h->m_state == bs_ready || h->m_state == bs_skip) return h->m_command.m_data.n == 0 && h->m_response.m_data.n == 0 && h->m_nextSendPos == 0 && !h->m_currentAnswering;
+    return 1;
+  default:
+    if ((h->m_state == bs_sendCmd || h->m_state == bs_sendCmdCrc || h->m_state == bs_sendResAck) && h->m_currentRequest == NULL) return 0;
+    if (ANSWER_STATE(h->m_state) && h->m_state != bs_recvResAck && !h->m_currentAnswering) return 0;
+    if (h->m_currentAnswering && !(ANSWER_STATE(h->m_state) || h->m_state == bs_noSignal)) return 0;   /* a lost signal leaves the flag until the next symbol */
+    if (h->m_currentAnswering && !g_answer_mode) return 0;
+    return 1;
   }
-  if (h->m_device->arbitrating && !rx_is_master(h->m_device->arb_master)) return 0;
-  if (g_q_head != NULL) {
-    if (g_q_head->life != RL_QUEUED || g_q_head == h->m_currentRequest || !req_ok(g_q_head)) return 0;
-  }
-  if (h->m_config.readOnly && (g_q_head != NULL || h->m_currentRequest != NULL)) return 0;   /* addRequest refuses requests in read-only mode */
-  if (h->m_state == bs_ready || h->m_state == bs_skip) {
-    if (h->m_command.m_data.n != 0 || h->m_response.m_data.n != 0 || h->m_nextSendPos != 0 || h->m_currentAnswering) return 0;
-  }
-  if ((h->m_state == bs_sendCmd || h->m_state == bs_sendCmdCrc || h->m_state == bs_sendResAck) && h->m_currentRequest == NULL) return 0;
-  if (ANSWER_STATE(h->m_state) && h->m_state != bs_recvResAck && !h->m_currentAnswering) return 0;
-  if (h->m_currentAnswering && !(ANSWER_STATE(h->m_state))) return 0;
-  return 1;
 }
+static inline _Bool inv(const DPH* h, _Bool before_send) {
+  return inv_part(h, 0, before_send) && inv_part(h, 1, before_send) && inv_part(h, 2, before_send) && inv_part(h, 3, before_send)
+      && inv_part(h, 4, before_send) && inv_part(h, 5, before_send) && inv_part(h, 6, before_send);
+}
+#define ASSERT_INV(h, bs) \
+  __CPROVER_assert(inv_part(h, 0, bs), "[C01,C02] invariant: buffer kinds and sizes, enum ranges, escape value"); \
+  __CPROVER_assert(inv_part(h, 1, bs), "[C20] invariant: time stamps in range"); \
+  __CPROVER_assert(inv_part(h, 2, bs), "[C02,C04] invariant: a current request is alive, not yet completed, and only exists in the active states"); \
+  __CPROVER_assert(inv_part(h, 3, bs), "[C04] invariant: the head of the queue is a queued, well-formed request"); \
+  __CPROVER_assert(inv_part(h, 4, bs), "[C03] invariant: no request and no own transfer in read-only mode"); \
+  __CPROVER_assert(inv_part(h, 5, bs), "[C01] invariant: buffers are empty in ready/skip"); \
+  __CPROVER_assert(inv_part(h, 6, bs), "[C02,C15] invariant: sending states have a request / an answer")
 
 /* states in which handleSend puts a symbol on the bus (so the following handleReceive sees it in flight) */
-#define MUST_SEND(h) ((h)->m_state == bs_sendCmd || (h)->m_state == bs_sendCmdCrc || (h)->m_state == bs_sendResAck || (h)->m_state == bs_sendCmdAck || (h)->m_state == bs_sendRes || (h)->m_state == bs_sendResCrc || (h)->m_state == bs_sendSyn)
+#define MUST_SEND(h) (!(h)->m_config.readOnly && ((h)->m_state == bs_sendCmd || (h)->m_state == bs_sendCmdCrc || (h)->m_state == bs_sendResAck || (h)->m_state == bs_sendCmdAck || (h)->m_state == bs_sendRes || (h)->m_state == bs_sendResCrc || (h)->m_state == bs_sendSyn))
 
 /* ---- role of ebusd in the running telegram, as a function of the handler state ---- */
 static inline int role_of(const DPH* h) {
   if (h->m_currentRequest != NULL && ACTIVE_STATE(h->m_state)) return 1;
   if (h->m_state == bs_sendSyn) return 1;
-  if (h->m_currentAnswering) return 2;
+  if (h->m_currentAnswering && ANSWER_STATE(h->m_state)) return 2;
   return 0;
 }
 
@@ -138,7 +156,7 @@ static inline int phase_of(BusState s) {
   }
 }
 /* buffers: passive/answering: m_command mirrors the recogniser; active: the request's master bytes are what is on the bus */
-#define REL_BUFS(h) (__CPROVER_forall { size_t k; (k < SS_CAP) ==> ( \
+#define REL_BUFS(h) (g_rx.ph == RX_IDLE || g_rx.ph == RX_READY || __CPROVER_forall { size_t k; (k < SS_CAP) ==> ( \
      (k < g_rx.cn ==> ((h)->m_currentRequest != NULL ? (h)->m_currentRequest->master.m_data.d[k] : (h)->m_command.m_data.d[k]) == g_rx.cmd[k]) \
   && (k < g_rx.rn ==> (h)->m_response.m_data.d[k] == g_rx.res[k])) })
 
@@ -148,7 +166,7 @@ static inline _Bool rel_scalars(const DPH* h, _Bool sending, symbol_t sent) {
   int role = role_of(h);
   if (g_echo_pending != sending) return 0;
   if (sending && g_sent_symbol != sent) return 0;
-  if ((role == 1) != g_active_open) return 0;
+  if (role == 1 && !g_active_open) return 0;
   if (g_rx.ph != ph) return 0;
   if (h->m_state == bs_sendSyn) return h->m_currentRequest == NULL && (!sending || sent == 0xAA);
   if (ph == RX_IDLE) return !sending;
@@ -157,6 +175,7 @@ static inline _Bool rel_scalars(const DPH* h, _Bool sending, symbol_t sent) {
   else if (h->m_command.m_data.n != g_rx.cn) return 0;
   if (role != 2 && ph != RX_RES && ph != RX_RESCRC && ph != RX_RESACK && (h->m_response.m_data.n != 0 || g_rx.rn != 0)) return 0;
   if (role == 2 && ph == RX_CMDACK && g_rx.rn != 0) return 0;
+  if (ph == RX_READY && h->m_currentRequest != NULL && (g_rx.esc || h->m_escape != 0)) return 0;
   if (ph == RX_READY) return !sending && h->m_crc == g_rx.crc && g_rx.cn == 0 && g_rx.crc == (g_rx.esc ? spec_crc_step(0, 0xA9) : 0) && (h->m_escape != 0) == g_rx.esc && h->m_escape != 0xAA;
   if (h->m_crc != g_rx.crc) return 0;
   if (h->m_repeat != g_rx.rep) return 0;
@@ -206,7 +225,8 @@ static inline _Bool rel_scalars(const DPH* h, _Bool sending, symbol_t sent) {
   }
   if (g_rx.cmd[1] == 0xFE || rx_is_master(g_rx.cmd[1])) return 0;      /* only slave destinations have a response */
   if (role == 2) {
-    /* own response being sent: m_response is complete, g_rx.res is its echoed prefix */
+    /* own response being sent: m_response is complete, g_rx.res is its echoed prefix; the command's CRC was valid */
+    if (!h->m_crcValid) return 0;
     if (!(h->m_response.m_data.n >= 1 && h->m_response.m_data.n == 1 + (size_t)h->m_response.m_data.d[0])) return 0;
     if (ph == RX_RES) {
       if (h->m_nextSendPos != g_rx.rn || g_rx.rn >= h->m_response.m_data.n) return 0;
@@ -228,7 +248,7 @@ static inline _Bool rel_scalars(const DPH* h, _Bool sending, symbol_t sent) {
       if (!sending && h->m_escape != 0 && !g_rx.esc) return 0;
       return 1;
     }
-    return g_rx.ok;     /* RX_RESACK while answering: own CRC was echoed */
+    return g_rx.ok && h->m_crcValid;     /* RX_RESACK while answering: own CRC was echoed */
   }
   if (h->m_response.m_data.n != g_rx.rn) return 0;
   if (ph == RX_RES) return !(g_rx.rn >= 1 && g_rx.rn >= 1 + (size_t)g_rx.res[0]);
